@@ -159,7 +159,8 @@ TcGridPart(i) ==
   CASE i \in 1..3 -> {[op |-> "tc.rt", a |-> [p |-> p, sfx |-> s, via |-> v]] :
                       p \in TcParGrid(<<0, 1, 2047>>[i]), s \in PusSfxGrid, v \in {"ctor"}}
     [] i = 4 -> {[op |-> "tc.rt", a |-> [p |-> p, sfx |-> <<>>, via |-> v]] :
-         p \in TcAckGrid \cup {TcSample}, v \in {"ctor", "sph", "composite", "setter", "bytearray"}}
+         p \in TcAckGrid \cup {TcSample}, v \in {"ctor", "sph", "composite", "setter", "bytearray", "empty"}}
+                \cup {[op |-> "tc.rt", a |-> [p |-> p, sfx |-> <<>>, via |-> "empty"]] : p \in TcParGrid(2047)}
                 \cup {[op |-> "tc.rt", a |-> [p |-> p, sfx |-> s, via |-> "bytearray"]] : p \in TcParGrid(1), s \in {<<>>, <<0>>}}
                 \cup {[op |-> "tc.rt", a |-> [p |-> p, sfx |-> <<>>, via |-> "setter"]] : p \in TcParGrid(2047)}
     [] i = 5 -> {[op |-> "tc.unpack", a |-> [octets |-> Take(TcEnc(TcOf(p)), k)]] :
